@@ -190,9 +190,10 @@ def _run_verus_unit(u, tier):
         if not ok and not r.undecided:
             res['undecided'] = res['undecided'] or ('canary %s did not fail: the harness is not observing the code' % c)
     res['witnesses'] = u.get('witnesses', [])
-    if tier == 'thorough' and u.get('thorough_explorations'):
+    exps = [e for e in u.get('thorough_explorations', []) if tier in e.get('tiers', ['thorough'])]
+    if exps:
         from . import replay
-        replay.run_explorations(res, u['thorough_explorations'], ROOT, BUILD)
+        replay.run_explorations(res, exps, ROOT, BUILD)
     res['wall_s'] = time.time() - t0
     return res
 
@@ -251,9 +252,10 @@ def run_unit(u, tier):
         return run_verus_unit(u, tier)
     if u['backend'] == 'kani':
         res = kani_backend.run_unit(u, tier, ROOT, BUILD)
-        if tier == 'thorough' and u.get('thorough_explorations'):
+        exps = [e for e in u.get('thorough_explorations', []) if tier in e.get('tiers', ['thorough'])]
+        if exps:
             from . import replay
-            replay.run_explorations(res, u['thorough_explorations'], ROOT, BUILD)
+            replay.run_explorations(res, exps, ROOT, BUILD)
         return res
     raise SystemExit('unknown backend ' + u['backend'])
 
